@@ -1022,12 +1022,14 @@ class Rewriter:
                 fdata = fp.read()
 
             # Generate line offsets numbers
-            m_lines = fdata.splitlines(True)
+            # Only '\n' ends a line for the lexer (str.splitlines also breaks at
+            # form feed, vertical tab and some other characters)
+            m_lines = fdata.split('\n')
             offset = 0
             line_offsets = []
             for j in m_lines:
                 line_offsets += [offset]
-                offset += len(j)
+                offset += len(j) + 1
 
             files[T.cast(str, i['file'])] = {
                 'path': fpath,
